@@ -169,6 +169,7 @@ def check(case, rec):
     used = _used(case)
     varying = any(leaves[i]['t'] not in ('const',) for i in used if i < len(leaves))
     rec.nontrivial = len(case['nodes']) >= 2 and varying and bool(case['features'])
+    if 'interp-ends' in case['features']: rec.label('interp-with-end-values')
     for n in case['nodes']: rec.label('op:' + n['op'])
     rec.label('sample:' + case['sample']['kind'])
 
